@@ -29,16 +29,16 @@ claim("C14", "model_checking", "SEQ", "destroy-notifier log checked on every tra
 SCHED_NOTE = ("trusted: gcc's tsan instrumentation pass (only as a source of callbacks), our runtime engine/mcrt_* (scheduler, POSIX threads model, vector-clock monitor), glibc for the real "
               "pthread contracts. Bounds: 2-4 threads, 1-2 operations each, preemption bound 2 (quick) / 3-4 (thorough), <= 1 spurious wake-up; state-hash pruning on causal-history "
               "fingerprints (DESIGN.md 3.3). Sequentially consistent scheduler; weak-memory reorderings beyond what the happens-before monitor judges are not explored.")
-claim("C01", "model_checking", "SCHED", "preemption-bounded exhaustive interleaving exploration of the real lock code under a controlled scheduler + happens-before monitor",
+claim("C01", "model_checking", "SCHED", "preemption-bounded exhaustive interleaving exploration of the real lock code under a controlled scheduler + happens-before monitor; one long execution per model with the spin abstraction off (waiter makes 2^24+ fruitless attempts while the holder stays inside)",
       "All interleavings (within the preemption bound) of 2-3 threads doing lock/trylock/unlock on the real PMutex and PSpinLock, for each of the c11, sync and sim models, with a "
       "shadow holder count, a happens-before race monitor on the protected data (visibility), deadlock/livelock detection and a never-blocks check for trylock.", SCHED_NOTE, "5 C01")
-claim("C02", "model_checking", "SCHED", "preemption-bounded exhaustive interleaving exploration incl. spurious wake-ups and signal-target choice, posix and general rwlock models",
+claim("C02", "model_checking", "SCHED", "preemption-bounded exhaustive interleaving exploration incl. spurious wake-ups and signal-target choice, posix (glibc reader- and writer-preferring kinds modelled) and general rwlock models; 70 000 read holds by one thread",
       "All interleavings within the bounds of reader/writer lock, trylock and unlock scripts on the real PRWLock; the portable 'general' model (never built on Linux) is compiled in and "
       "explored over modelled mutex/condvars, including every spurious wake-up position; exclusion invariant, shared readers (existential), no lost wake-up (every thread finishes).", SCHED_NOTE, "5 C02")
 claim("C03", "model_checking", "SCHED", "preemption-bounded exhaustive interleaving exploration of producer/consumer protocols over the POSIX condvar model with contract checks",
       "The wrappers are explored driving a POSIX condition-variable model that checks its own contract (waiter holds an initialised mutex); bounded-buffer, gate and token protocols must "
       "complete in every schedule, with every choice of the woken waiter and with spurious wake-ups.", SCHED_NOTE, "5 C03")
-claim("C04", "model_checking", "SEQ+SCHED", "operand-alphabet enumeration + exhaustive interleavings with brute-force linearizability check, three atomic models",
+claim("C04", "model_checking", "SEQ+SCHED", "operand-alphabet enumeration + exhaustive interleavings with brute-force linearizability check + store-buffering / message-passing litmus tests explored over x86-TSO store buffers in the scheduler, three atomic models",
       "Every operation on every boundary operand combination against C word arithmetic; every interleaving (within the bound) of 2-3 threads x 1-2 atomic ops on one word checked against "
       "all sequential orders; message passing under the happens-before monitor; full-barrier accounting for set/get.", SCHED_NOTE, "5 C04")
 claim("C05", "model_checking", "SCHED", "preemption-bounded exhaustive interleaving exploration with tracking allocator, freed-memory poisoning and happens-before monitor",
